@@ -53,9 +53,25 @@ type WSqOuter struct {
 	Base WSqMid `sql:"embedded_prefix:meta_"`
 }
 
+// seeded change C06-i: every primitive type behind a non-nil pointer is nullable
+type WPtrs struct {
+	ID    int `sql:"primary_key"`
+	Flag  *bool
+	Tiny  *int8
+	Small *int16
+	Num   *int
+	Big   *int64
+	Ratio *float32
+	Rate  *float64
+	Label *string
+}
+
 var my = structCfg{dialect: "mysql", tagKey: "sql"}
 
 var witnessCases = []structCase{
+	{id: "wst-non-nil-pointers", cfg: my, obj: WPtrs{Flag: ptrBool(), Tiny: ptrInt8(), Small: ptrInt16(), Num: ptrInt(), Big: ptrInt64(), Ratio: ptrFloat32(), Rate: ptrFloat64(), Label: ptrString()},
+		decl: `(decl "WPtrs" "" ((field "ID" int "int" "primary_key") (field "Flag" (ptrTo bool) "*bool" "") (field "Tiny" (ptrTo int8) "*int8" "") (field "Small" (ptrTo int16) "*int16" "") (field "Num" (ptrTo int) "*int" "") (field "Big" (ptrTo int64) "*int64" "") (field "Ratio" (ptrTo float32) "*float32" "") (field "Rate" (ptrTo float64) "*float64" "") (field "Label" (ptrTo string) "*string" "")))`,
+		expect: `(expect "w_ptrs" ((col "id" "INT" ("pk") true) (col "flag" "BOOLEAN" ("null") false) (col "tiny" "TINYINT" ("null") false) (col "small" "SMALLINT" ("null") false) (col "num" "INT" ("null") false) (col "big" "BIGINT" ("null") false) (col "ratio" "FLOAT" ("null") false) (col "rate" "DOUBLE" ("null") false) (col "label" "TEXT" ("null") false)) () () ())`},
 	{id: "wst-squash-in-prefixed-embedded", cfg: my, obj: WSqOuter{},
 		decl:   `(decl "WSqOuter" "" ((field "ID" int "int" "primary_key") (field "Base" (struct ((field "Note" string "string" "") (field "Meta" (struct ((field "CreatedAt" string "string" ""))) "WSqInner" "squash"))) "WSqMid" "embedded_prefix:meta_")))`,
 		expect: `(expect "w_sq_outer" ((col "id" "INT" ("pk") true) (col "meta_note" "TEXT" () false) (col "meta_created_at" "TEXT" () false)) () ())`},
